@@ -381,12 +381,71 @@ pub fn declared_ops(cfg: &WCfg, rng: &mut Rng, allow_stream: bool, allow_subfram
     ops
 }
 
+/// configurations given as a complete `Info` (Encoder::with_info), every metadata field set that an Info can carry - whatever the encoder
+/// chooses to write of it has to come out in a legal chunk order (colour-space chunks and sBIT before PLTE, tRNS / bKGD after it, all before IDAT)
+fn with_info_metadata_cases(o: &mut Out, rng: &mut Rng, thorough: bool) {
+    use std::borrow::Cow;
+    for k in 0..(if thorough { 300 } else { 45 }) {
+        let (color, depth) = *rng.pick(&[(3u8, 8u8), (3, 4), (3, 2), (3, 1), (2, 8), (0, 8), (6, 8), (2, 16)]);
+        let (w, h) = (rng.range(1, 6) as u32, rng.range(1, 5) as u32);
+        let animated = k % 3 == 0;
+        let rb = crate::refimpl::row_bytes(color, depth, w as u64) as usize;
+        let nimg = if animated { 2 } else { 1 };
+        let images: Vec<Vec<u8>> = (0..nimg).map(|_| rng.bytes(rb * h as usize)).collect();
+        let mask = rng.next() as u32;
+        o.mark(&format!("with_info metadata c{}d{} {}x{} animated={} mask={:#x}", color, depth, w, h, animated, mask));
+        let sink = Sink::new(0, None, false);
+        let r = guarded(|| -> Result<(), String> {
+            let mut info = png::Info::with_size(w, h);
+            info.color_type = color_of(color);
+            info.bit_depth = depth_of(depth);
+            let chans = match color { 0 => 1, 2 => 3, 3 => 3, 4 => 2, _ => 4 };
+            if color == 3 || mask & 1 != 0 { if color == 3 || color == 2 || color == 6 { info.palette = Some(Cow::Owned((0..3 * (1usize << depth.min(8)).min(256)).map(|i| (i * 7) as u8).collect())); } }
+            if mask & 2 != 0 { info.sbit = Some(Cow::Owned(vec![depth.min(8).max(1); chans])); }
+            if mask & 4 != 0 && color != 6 { info.trns = Some(Cow::Owned(match color { 3 => vec![0, 128], 0 => vec![0, 1], _ => vec![0, 1, 0, 2, 0, 3] })); }
+            if mask & 8 != 0 { info.pixel_dims = Some(png::PixelDimensions { xppu: 2835, yppu: 2835, unit: png::Unit::Meter }); }
+            if mask & 16 != 0 { info.source_gamma = Some(png::ScaledFloat::from_scaled(45455)); info.gama_chunk = info.source_gamma; }
+            if mask & 32 != 0 { info.srgb = Some(png::SrgbRenderingIntent::Perceptual); }
+            if mask & 64 != 0 { info.icc_profile = Some(Cow::Owned((0..40).map(|i| i as u8).collect())); }
+            if mask & 128 != 0 { info.exif_metadata = Some(Cow::Owned(b"II*\0\x08\0\0\0".to_vec())); }
+            if mask & 256 != 0 { info.bkgd = Some(Cow::Owned(match color { 3 => vec![1], 0 => vec![0, 1], _ => vec![0, 1, 0, 2, 0, 3] })); }
+            if mask & 512 != 0 { info.coding_independent_code_points = Some(png::CodingIndependentCodePoints { color_primaries: 1, transfer_function: 13, matrix_coefficients: 0, is_video_full_range_image: true }); }
+            if mask & 1024 != 0 { info.content_light_level = Some(png::ContentLightLevelInfo { max_content_light_level: 1000, max_frame_average_light_level: 400 }); }
+            if mask & 2048 != 0 { info.uncompressed_latin1_text.push(png::text_metadata::TEXtChunk::new("Title", "x")); }
+            if animated {
+                info.animation_control = Some(png::AnimationControl { num_frames: 2, num_plays: 0 });
+                let mut fc = png::FrameControl::default();
+                fc.width = w; fc.height = h;
+                info.frame_control = Some(fc);
+            }
+            let e = png::Encoder::with_info(sink.clone(), info).map_err(|er| format!("with_info: {:?}", er))?;
+            let mut wr = e.write_header().map_err(|er| format!("header: {:?}", er))?;
+            for im in &images { wr.write_image_data(im).map_err(|er| format!("image: {:?}", er))?; }
+            wr.finish().map_err(|er| format!("finish: {:?}", er))
+        });
+        o.direct_checks += 1;
+        o.count("with-info-metadata");
+        match r {
+            Err(m) => { o.violation(viol("encoder-panicked", "encoder-panicked", vec![("why", jstr(&m)), ("mask", mask.to_string())])); continue; }
+            Ok(Err(_)) => { o.count("with-info-metadata.refused"); continue; }
+            Ok(Ok(())) => {}
+        }
+        let bytes = sink.0.borrow().accepted.clone();
+        if let Err(why) = validate(&bytes) {
+            o.violation(viol("encoder-output-not-conformant", "encoder-output-not-conformant", vec![("config", jstr(&format!("with_info c{}d{} {}x{} animated={} metadata mask {:#x}", color, depth, w, h, animated, mask))), ("why", jstr(&why)), ("emitted", jstr(&hex(&bytes)))]));
+        }
+    }
+}
+
 pub fn run(a: &Args) {
     let mut o = Out::new(&a.out);
     let mut rng = Rng::new(a.seed);
     let thorough = a.tier == "thorough";
     for k in 0..(if thorough { 60000 } else { 2500 }) {
-        let cfg = random_cfg(&mut rng, None);
+        let mut cfg = random_cfg(&mut rng, None);
+        // an indexed image whose palette was never set: no path may accept it (a PNG with colour type 3 and no PLTE is not one)
+        if cfg.color == 3 && cfg.animated.is_none() && k % 5 == 0 { cfg.palette = None; }
+        let cfg = cfg;
         let ops = declared_ops(&cfg, &mut rng, true, true);
         let mut ops = ops;
         // every 7th still image: the (only) image is written through an OWNED stream writer that is finished (the Writer's own end-of-stream handling must not add a second IEND)
@@ -465,6 +524,7 @@ pub fn run(a: &Args) {
             o.violation(viol("encoder-output-not-conformant", "encoder-output-not-conformant", vec![("config", jstr(&format!("{:?}", cfg))), ("why", jstr(&why)), ("emitted_len", bytes.len().to_string())]));
         }
     }
+    with_info_metadata_cases(&mut o, &mut rng, thorough);
     o.mark("done");
     o.finish();
 }
